@@ -53,7 +53,7 @@ def gen_parse(rng):
         # UTF-8 reaches the window as a lone surrogate and stands for exactly that byte
         case["errors"] = "surrogateescape"
         k = rng.randint(0, len(extra))
-        case["extra"] = extra[:k] + rng.choice(["\udce1", "\udcff\udc80"]) + extra[k:]
+        case["extra"] = extra[:k] + rng.choice(["\udce1", "\udcff\udc80", "\udc9b", "\udc9b1;2"]) + extra[k:]
     return case
 
 
@@ -191,7 +191,7 @@ def gen_history(rng):
         steps.append({"h": rng.random(), "tall": rng.random() < .3, "len": rng.random(), "cursor": rng.random(), "d": rng.random(),
                       "nested": rng.random() < .3, "d2": rng.random(), "extra_query": rng.random() < .2,
                       "d3": rng.random(), "failed_first": rng.random() < .15,
-                      "nested_at_statement": rng.choice([0, 0, 2, 3, 4, 5, 6, 8])})
+                      "nested_at_statement": rng.choice([0, 0, 2, 3, 4, 5, 6, 8]), "nested_twice": rng.random() < .4})
     case = {"kind": "history", "rows": rows, "cols": cols, "pre": rng.randint(0, rows - 1), "steps": steps}
     if rng.random() < .25:
         case["queries_before_first_render"] = [rng.random() for _ in range(rng.randint(1, 3))]
@@ -211,7 +211,13 @@ def run_history(ctx, case):
     rows, cols = case["rows"], case["cols"]
     inp = plumbing.ScriptedIn("utf-8")
     term = tm.Term(rows, cols, reply=inp.push)
-    out = plumbing.TeeOut(rows, cols, sink=term.feed)
+    arm_on_query = []
+
+    def sink(data):
+        if arm_on_query and "\x1b[6n" in data:
+            inp.hook = arm_on_query.pop()
+        term.feed(data)
+    out = plumbing.TeeOut(rows, cols, sink=sink)
     try:
         for _ in range(case["pre"]):
             term.feed("h\r\n")
@@ -257,10 +263,16 @@ def run_history(ctx, case):
                     line_hook = None
                     if nested:
                         def hook():
-                            d2 = pick(st["d2"], -term.y, rows - 1 - term.y)
+                            d2 = pick(st["d3"] if hook.again else st["d2"], -term.y, rows - 1 - term.y)
                             term.y += d2
                             total[0] += d2
+                            if st.get("nested_twice") and not hook.again:
+                                # one more SIGWINCH while the query that the first one forced is waiting
+                                # for its reply: armed when that next query is written
+                                hook.again = True
+                                arm_on_query.append(hook)
                             nested_ret[0] += w.get_cursor_vertical_diff()
+                        hook.again = False
                         if st.get("nested_at_statement"):
                             # a SIGWINCH handler can run between any two statements: here at the k-th
                             # statement of the bookkeeping that follows the terminal's reply
